@@ -231,6 +231,7 @@ def render_module(cfgs, bares):
     return "\n".join(lines) + "\n", spans
 
 
+BUILD_TIMEOUT = 3600      # seconds per module (the shared machine can be 10x slower than nominal)
 _ERR = re.compile(r"^(?!warning)\S*\.pyx:(\d+):(\d+): (.*)$", re.M)
 
 
@@ -244,9 +245,9 @@ def build_with_rejects(name, cfgs, bares, workdir, cython_only=False, depth=0):
         if not todo:
             return [], rejected, [], problems
         src, spans = render_module(todo, bares)
-        b = core.build_many([core.BuildSpec("%s_%d" % (name, attempt), src, cython_only=cython_only)], workdir=workdir, jobs=1)[0]
+        b = core.build_many([core.BuildSpec("%s_%d" % (name, attempt), src, cython_only=cython_only)], workdir=workdir, jobs=1, timeout=BUILD_TIMEOUT)[0]
         if b.ok:
-            return [(b, todo)], rejected, todo, problems
+            return ([] if cython_only else [(b, todo)]), rejected, todo, problems
         if b.stage != "cython":
             problems.append({"stage": b.stage, "errors": (b.errors or "")[-3000:], "ids": [c["id"] for c in todo]})
             return [], rejected, [], problems
